@@ -166,8 +166,11 @@ class SimTransport:
         if not isinstance(data, (bytes, bytearray, memoryview)):
             raise TypeError("Data must be bytes")
         # like abstract.FileDescriptor.write: data written after
-        # loseConnection() is still sent before the connection closes
-        if not end.alive or end.fin_sent or not data:
+        # loseConnection() is still sent before the connection closes (the
+        # close completes in a later reactor iteration: until this end has
+        # been told connectionLost, what it writes still goes out - the peer
+        # sees it ahead of the EOF)
+        if not end.alive or not data:
             return
         end.net.sim.stat_bytes += len(data)
         if end.net.sim.on_write is not None:
